@@ -1,1 +1,5 @@
 import SmtpV.Props.C03
+#print axioms SmtpV.Props.C03.order_accepts_every_connection
+#print axioms SmtpV.Props.C03.C03_order
+#print axioms SmtpV.Props.C03.C03_order_visible
+#print axioms SmtpV.Server.serve_good
